@@ -42,6 +42,22 @@ CHECKS = {
          "with the C decomposition for every frame number.",
          "Host x86-64 build under ASan/UBSan; expected values from independent division arithmetic in the driver.",
          "DESIGN.md 2/C19", "cbuild"),
+ "C02": ("model_checking",
+         "explicit-state BFS over tuning/hopping/power histories on the real Application; probe bursts from every sender in every state; reference hopping model",
+         "The reachable configurations of 3-5 transceivers under {tune, SETFH variants (cyclic and pseudo-random, 1-5 channels), POWERON, POWEROFF} "
+         "are exhausted; in every state every running sender transmits at every probe frame number (covering T1/T2/T3 carries and the end of "
+         "the hyperframe) and the set of datagrams on all L1 DATA ports must equal the reference recipients; repeated for several header "
+         "version / mute assignments.",
+         "Clock handler called with the probe frame number; untuned-but-running children not judged; default attenuation.",
+         "DESIGN.md 2/C02", "world+explore"),
+ "C03": ("model_checking",
+         "explicit-state BFS over arrival/tick/power/format histories + exhaustive thread-interleaving exploration (iterative preemption bounding) with a linearizability oracle",
+         "Histories: all sequences up to the stated depth/queue bound from start frames 0 and 2715644 (across the wrap) on the real Application, "
+         "every tick's datagrams and stale reports compared with the fate model. Schedules: two real threads (main-loop dispatch of 1-2 "
+         "arrivals/power commands vs. one clock handler call) interleaved at every shared attribute access / iteration / lock operation up to the "
+         "preemption bound, 80 scenarios; each execution's observation must equal some sequential order of the operations.",
+         "Bounds: depth and queue size for histories; 2 threads, <=2 socket operations, preemption bound 2/1 (quick) 3/2 (thorough).",
+         "DESIGN.md 2/C03, 1.5", "world+explore+sched"),
 }
 
 PENDING = {}
